@@ -25,6 +25,7 @@ PROPS = {
     "C03": dict(pkg="c03", shards=(4, 16), timeout=(600, 3600), typereg=True),
     "C20": dict(pkg="c20", shards=(4, 16), timeout=(600, 3600), typereg=True),
     "C08": dict(pkg="c08", shards=(6, 16), timeout=(900, 5400), typereg=True),
+    "C05": dict(pkg="c05", shards=(4, 16), timeout=(600, 3600)),
     "C06": dict(pkg="c06", shards=(4, 16), timeout=(300, 3600)),
 }
 
